@@ -41,6 +41,9 @@ def plan(tier):
     step = 65536 // n
     for i in range(n):
         descs.append({"kind": "note_setters", "lo": i * step, "hi": (i + 1) * step})
+    for i in range(4):
+        # the same setters on cells whose other columns are not empty: every note command x both ways of holding it
+        descs.append({"kind": "note_setters_context", "part": i, "parts": 4})
     for i in range(8):
         descs.append({"kind": "viz", "part": i, "parts": 8})
     descs.append({"kind": "packed_io"})
@@ -95,6 +98,51 @@ def run_note_setters(ctx, lo, hi):
     ctx.mark_nontrivial_count("note_setters[%d:%d]" % (lo, hi), nontrivial)
     ctx.label("note_setter_range")
     ctx.sample({"op": "note_setters", "old_words": [lo, hi], "new_values": len(news), "fields": [f[0] for f in FIELDS]})
+
+
+def run_note_setters_context(ctx, part, parts):
+    """Sub-field setters on a cell whose note / velocity / module columns hold something: every NOTECMD member
+    (held as the enum member, as a plain int as after decoding, and as an equal but distinct enum lookup),
+    a few velocities and module numbers; old words around every byte boundary; every new byte value."""
+    from rv.api import NOTECMD, Note
+
+    cmds = list(NOTECMD)[part::parts]
+    olds = [0x0000, 0x00FF, 0x0100, 0x7700, 0x77FF, 0x7800, 0x7801, 0x78FF, 0x7F00, 0x8000, 0xFF00, 0xFFFF, 0x1234]
+    news = list(range(256)) if ctx.tier == "thorough" else list(range(0, 256, 7)) + [0x77, 0x78, 0x79, 0x7F, 0x80, 0xFF]
+    count = 0
+    for cmd in cmds:
+        for held_as, noteval in (("enum", cmd), ("int", int(cmd)), ("raw", None)):
+            vel, module = (int(cmd) * 7) % 130, (int(cmd) * 131) & 0xFFFF
+            n = Note(note=cmd, vel=vel, module=module)
+            if held_as == "int":
+                n.note = noteval
+            elif held_as == "raw":
+                n.raw_data = struct.pack("<BBHHH", int(cmd), vel, module, 0, 0)
+            for fname, word, shift in FIELDS:
+                other_word = "val" if word == "ctl" else "ctl"
+                mask = 0xFF << shift
+                for old in olds:
+                    old_other = (old * 40503 + 12345) & 0xFFFF
+                    for new in news:
+                        setattr(n, word, old)
+                        setattr(n, other_word, old_other)
+                        setattr(n, fname, new)
+                        w = getattr(n, word)
+                        exp = (old & ~mask & 0xFFFF) | (new << shift)
+                        if w != exp or getattr(n, fname) != new or getattr(n, other_word) != old_other or (int(n.note), n.vel, n.module) != (int(cmd), vel, module):
+                            ctx.check(
+                                False,
+                                "C12.note.setter_in_context." + fname,
+                                "Note(note=%s held as %s, vel=%d, module=%d) %s=0x%04x; .%s = 0x%02x -> %s=0x%04x (expected 0x%04x), reads back 0x%02x, other word 0x%04x (was 0x%04x), note/vel/module %r"
+                                % (cmd.name, held_as, vel, module, word, old, fname, new, word, w, exp, getattr(n, fname), getattr(n, other_word), old_other, (int(n.note), n.vel, n.module)),
+                                key="C12.note.setter_in_context.%s:%s" % (fname, held_as),
+                                recipe={"op": "note_setter_context", "cmd": int(cmd), "held_as": held_as, "field": fname, "old": old, "new": new},
+                            )
+                        count += 1
+    ctx.case(count)
+    ctx.mark_nontrivial_count("note_setters_context[%d/%d]" % (part, parts), count)
+    ctx.label("note_setter_with_other_columns_set")
+    ctx.sample({"op": "note_setters_context", "commands": len(cmds), "held_as": ["enum", "int", "raw"], "old_words": len(olds), "new_values": len(news)})
 
 
 # --- (b) visualization word --------------------------------------------------------------
@@ -455,6 +503,8 @@ def run_shard(ctx, desc):
     k = desc["kind"]
     if k == "note_setters":
         run_note_setters(ctx, desc["lo"], desc["hi"])
+    elif k == "note_setters_context":
+        run_note_setters_context(ctx, desc["part"], desc["parts"])
     elif k == "viz":
         run_viz(ctx, desc["part"], desc["parts"])
     elif k == "packed_io":
@@ -507,6 +557,26 @@ def replay(ctx, doc):
         exp = (r["old"] & ~mask & 0xFFFF) | (r["new"] << shift)
         if getattr(n, word) != exp or getattr(n, fname) != r["new"]:
             raise PropertyViolation("C12.note.setter." + fname, "old 0x%04x, %s=0x%02x -> 0x%04x, expected 0x%04x" % (r["old"], fname, r["new"], getattr(n, word), exp))
+    elif op == "note_setter_context":
+        from rv.api import NOTECMD
+
+        fname, word, shift = next(f for f in FIELDS if f[0] == r["field"])
+        cmd = NOTECMD(r["cmd"])
+        vel, module = (int(cmd) * 7) % 130, (int(cmd) * 131) & 0xFFFF
+        n = Note(note=cmd, vel=vel, module=module)
+        if r["held_as"] == "int":
+            n.note = int(cmd)
+        elif r["held_as"] == "raw":
+            n.raw_data = struct.pack("<BBHHH", int(cmd), vel, module, 0, 0)
+        other_word = "val" if word == "ctl" else "ctl"
+        old_other = (r["old"] * 40503 + 12345) & 0xFFFF
+        setattr(n, word, r["old"])
+        setattr(n, other_word, old_other)
+        setattr(n, fname, r["new"])
+        mask = 0xFF << shift
+        exp = (r["old"] & ~mask & 0xFFFF) | (r["new"] << shift)
+        if getattr(n, word) != exp or getattr(n, fname) != r["new"] or getattr(n, other_word) != old_other or (int(n.note), n.vel, n.module) != (int(cmd), vel, module):
+            raise PropertyViolation("C12.note.setter_in_context." + fname, "note %s held as %s: old 0x%04x, %s=0x%02x -> 0x%04x, expected 0x%04x" % (cmd.name, r["held_as"], r["old"], fname, r["new"], getattr(n, word), exp))
     elif op == "viz":
         name, shift, width, news, norm = next(f for f in VIZ_FIELDS if f[0] == r["field"])
         v = Visualization(r["word"])
